@@ -225,6 +225,8 @@ Inductive op :=
 | OWrite (m : nat) (k : nat) (v : option Z)
 | OEnvPut (k : nat) (v : option Z)
 | OIsLeader (m : nat)
+| OKeepBegin (m : nat)                 (* Keep started; etcd has processed the first renewal, its response is held *)
+| OKeepEnd (m : nat)                   (* the held response is delivered *)
 | ORead.
 
 Inductive obs :=
@@ -295,6 +297,8 @@ Definition run_op (s : state) (o : op) : state * obs :=
       (stepd s (LWrite m k v2 Ok), if applied then BOk else BRejected)
   | OEnvPut k v => (stepd s (LEnvPut k (match v with Some z => Some (99%nat, z) | None => None end)), BUnit)
   | OIsLeader m => (s, BBool (is_leader s m))
+  | OKeepBegin m => match step s (LKeepStart m) with Some s1 => (s1, BStarted) | None => (s, BBad) end
+  | OKeepEnd m => match step s (LKeepDone m) with Some s1 => (s1, BUnit) | None => (s, BBad) end
   | ORead => (s, BStore (key_value s) (payload s 0) (payload s 1) (payload s 2))
   end.
 
